@@ -9,6 +9,12 @@ fn usage() -> ! {
 
 fn main() {
     let args: Vec<String> = std::env::args().skip(1).collect();
+    if args.first().map(|s| s == "--dict").unwrap_or(false) {
+        let d = pv::dict::dict();
+        println!("strings ({}): {:?}", d.strings.len(), d.strings);
+        println!("numbers ({}): {:?}", d.numbers.len(), d.numbers);
+        return;
+    }
     if args.first().map(|s| s == "--list").unwrap_or(false) {
         for p in pv::props::all() {
             println!("{}", p.id);
